@@ -116,8 +116,18 @@ void engineValues(const std::vector<std::string> &, const std::vector<std::strin
             Var *a = live(w[1]), *b = live(w[2]);
             if (!a || !b || a->kind != b->kind) ok = false;
             else if (a->kind == "bitmap") outLine(std::string("EQ ") + ((*static_cast<Bitmap *>(a->p) == *static_cast<Bitmap *>(b->p)) ? "1" : "0"));
-            else if (a->kind == "record") outLine(std::string("EQ ") + ((*static_cast<Record *>(a->p) == *static_cast<Record *>(b->p)) ? "1" : "0"));
-            else if (a->kind == "service") outLine(std::string("EQ ") + ((*static_cast<Service *>(a->p) == *static_cast<Service *>(b->p)) ? "1" : "0"));
+            else if (a->kind == "record") {
+                const Record &x = *static_cast<Record *>(a->p), &y = *static_cast<Record *>(b->p);
+                const bool eq = x == y;
+                // the other comparison operator of the public interface must be the negation of the first
+                if ((x != y) == eq) outLine("FAULT Record::operator!= disagrees with operator==");
+                outLine(std::string("EQ ") + (eq ? "1" : "0"));
+            } else if (a->kind == "service") {
+                const Service &x = *static_cast<Service *>(a->p), &y = *static_cast<Service *>(b->p);
+                const bool eq = x == y;
+                if ((x != y) == eq) outLine("FAULT Service::operator!= disagrees with operator==");
+                outLine(std::string("EQ ") + (eq ? "1" : "0"));
+            }
             else ok = false;
         } else if (w[0] == "GET" && w.size() == 2) {
             Var *a = live(w[1]);
